@@ -20,8 +20,9 @@ Anchors == @ANCHORS@
 Upper == Rate = 0 \/ \A i \in Anchors : \A j \in DOMAIN Trace :
    (i <= j /\ Trace[i].adm /\ Trace[j].adm) =>
       Scale * ((Trace[j].cum - Trace[i].cum + Trace[i].size) - Burst) <= Rate * (Trace[j].e - Trace[i].e)
-\* the lower bound presumes a bucket that can hold a maximum-size packet at all
-Lower == (Rate = 0 \/ ~Backlogged \/ Burst < MaxPkt) \/ \A i \in Anchors : \A j \in DOMAIN Trace :
+\* the lower bound is claimed for Burst >= 2*MaxPkt only (TokenBucket.tla: below that the exact reference
+\* bucket itself wastes accrual without bound when it is consulted only at arrivals)
+Lower == (Rate = 0 \/ ~Backlogged \/ Burst < 2 * MaxPkt) \/ \A i \in Anchors : \A j \in DOMAIN Trace :
    (i <= j) => Scale * ((Trace[j].cum - Trace[i].cum) + Burst + MaxPkt) >= Rate * (Trace[j].e - Trace[i].e)
 Unlimited == Rate # 0 \/ \A i \in DOMAIN Trace : Trace[i].adm
 All == Upper /\ Lower /\ Unlimited
